@@ -36,7 +36,7 @@ def one(sd):
 
 if __name__ == "__main__":
     args = sys.argv[1:] or [os.path.join("/verif/refactors", d) for d in sorted(os.listdir("/verif/refactors")) if os.path.exists(f"/verif/refactors/{d}/patch.diff")]
-    with ProcessPoolExecutor(8) as ex:
+    with ProcessPoolExecutor(14) as ex:
         rows = list(ex.map(one, args))
     for sd, verdict, alarms, errors in rows:
         print(f"{'/'.join(sd.split('/')[-3:]):28s} {verdict}")
